@@ -4,6 +4,7 @@ from core import Case
 from . import wiregen as W
 
 ID = "C08"
+SPEC_IS_ORACLE = lambda c: c.cmd == "BKDR"
 THEOREMS = [
     "Portus.C08.yields_function_of_datagrams", "Portus.C08.stale_bytes_irrelevant",
     "Portus.C08.yields_from_any_state", "Portus.C08.wellformed_datagrams_yield_messages",
@@ -85,6 +86,14 @@ def gen(ctx):
         yield Case("BKD", "F:%s %s" % (f1, " ".join(items)), tags=("script",))
         if rng.random() < 0.5:
             yield Case("BKD", "F:%s %s" % (f2, " ".join(items)), tags=("script-refill",))
+    # pause and resume: the stop flag is cleared between datagrams (item X), next() returns None, the caller sets the flag again and
+    # keeps calling next() on the SAME backend: nothing already delivered may come back, nothing may be lost
+    for _ in range(n // 3):
+        items = gen_script(rng, maxd)
+        k = rng.randrange(1, 4)
+        for _ in range(k):
+            items.insert(rng.randrange(len(items) + 1), "X")
+        yield Case("BKDR", "F:%s %s" % (rng.choice(["00", "aa", "ff"]), " ".join(items)), tags=("pause-resume",))
     # every truncation point of a fixed two-datagram scenario (long create, then short tail)
     cr = W.enc_create(1, 2, 3, 4, 5, 6, 7, b"reno")
     ms = W.enc_measure(7, 1, [5])
@@ -105,4 +114,6 @@ def nontrivial(c, r):
 
 
 def oracle(c, impl_res):
+    if c.cmd != "BKD":
+        return None  # pause/resume runs: decided against the model's next() (theorem yields_from_any_state covers every reachable state)
     return ("ORC", "C08 %s @@ %s" % (c.args, impl_res))
